@@ -239,7 +239,6 @@ def bin_feature(
             finite_max = feature.filter(feature < np.inf).max()
         else:
             finite_max = feature_max
-        f_range = finite_max - finite_min
 
         if bin_method == "quantile":
             # We use method="inverted_cdf" instead of the default "linear" because
@@ -253,7 +252,12 @@ def bin_feature(
             )
             bin_edges = np.unique(q)  # Some quantiles might be the same.
         elif bin_method == "uniform":
-            bin_edges = finite_min + f_range * np.arange(1, n_bins_ef) / n_bins_ef
+            if finite_min is None or finite_max is None or finite_min > finite_max:
+                # No finite value at all, only +-inf: a single bin [min, max].
+                bin_edges = np.array([], dtype=float)
+            else:
+                f_range = finite_max - finite_min
+                bin_edges = finite_min + f_range * np.arange(1, n_bins_ef) / n_bins_ef
         else:
             # numpy histogram bin methods
             a = feature.filter(feature.is_finite() & feature.is_not_null())
